@@ -462,7 +462,8 @@ public_preserve_all = _public_preserve(skeletons.PRESERVE_TEMPLATES)
 OPTION_COMBOS = [(True, False, True), (True, True, True), (True, True, False), (False, True, True)]
 
 
-def plan(lib, tier, seed, quick_n, lengths_quick=(3,), lengths_thorough=(1, 3), combos_quick=None, extra=None, names='ABC'):
+def plan(lib, tier, seed, quick_n, lengths_quick=(3,), lengths_thorough=(1, 3), combos_quick=None, extra=None, names='ABC',
+         combos_thorough=None):
     """[(extra_pre list)] - quick: a seeded rotation through the skeleton library; thorough: the whole library."""
     import random
     n = len(lib)
@@ -475,7 +476,7 @@ def plan(lib, tier, seed, quick_n, lengths_quick=(3,), lengths_thorough=(1, 3), 
         combos = combos_quick or [OPTION_COMBOS[0], OPTION_COMBOS[1]]
     else:
         lengths = lengths_thorough
-        combos = OPTION_COMBOS
+        combos = combos_thorough or OPTION_COMBOS
     shards = []
     for i, k in enumerate(ks):
         for L in lengths:
@@ -511,3 +512,328 @@ def renamekern_selftest(tier):
                     raise AssertionError('R-scope and compile() disagree on %r: compile ok=%s, R-scope errors=%s' % (text, ok, an.errors))
                 n += 1
     return n
+
+
+# ---------------------------------------------------------------------------------------------------------------
+# C06: hoisted literals
+def _slots(tree):
+    """{(id(parent), field, index): child} and {id(child): parent} for every AST child position."""
+    slots = {}
+    parent_of = {}
+    for node in ast.walk(tree):
+        for field, value in ast.iter_fields(node):
+            if isinstance(value, ast.AST):
+                slots[(id(node), field, None)] = value
+                parent_of[id(value)] = node
+            elif isinstance(value, list):
+                for i, v in enumerate(value):
+                    if isinstance(v, ast.AST):
+                        slots[(id(node), field, i)] = v
+                        parent_of[id(v)] = node
+    return slots, parent_of
+
+
+def _is_doc(st):
+    return isinstance(st, ast.Expr) and isinstance(st.value, ast.Constant) and isinstance(st.value.value, str)
+
+
+def _is_future(st):
+    return isinstance(st, ast.ImportFrom) and st.module == '__future__'
+
+
+def hoist_problems(tree_before_slots, first_stmts, an0, snap, out, rep):
+    problems = []
+    an1 = rep.an1
+    slots1, parent1 = _slots(out)
+    slot_of = {}
+    for key, child in slots1.items():
+        slot_of[id(child)] = key
+    const_links = [l for l in rep.links if l[1][0] == 'CONST']
+    # 1. definitions: where and what
+    for (tb, sb, st, parent) in const_links:
+        if not isinstance(parent, (ast.Module, ast.FunctionDef, ast.AsyncFunctionDef)):
+            problems.append('literal alias defined in a %s body' % type(parent).__name__)
+            return problems
+        seen_self = False
+        for s2 in parent.body:
+            if s2 is st:
+                seen_self = True
+                break
+            inserted = not snap.has_node(s2)
+            if not (_is_doc(s2) or _is_future(s2) or inserted):
+                problems.append('literal alias is not at the start of its body (after %s)' % type(s2).__name__)
+                return problems
+        if not seen_self:
+            problems.append('literal alias definition not found in the body list')
+            return problems
+    # 2. uses
+    for o in rep.new_occ:
+        if o.kind != 'load':
+            continue
+        is_alias_value = False
+        for (tb, sb, st, parent) in rep.links:
+            if st.value is o.node:
+                is_alias_value = True
+        if is_alias_value:
+            continue
+        key = slot_of.get(id(o.node))
+        orig = tree_before_slots.get(key) if key is not None else None
+        if not isinstance(orig, ast.Constant):
+            problems.append('a name was introduced where no literal stood')
+            return problems
+        b = an1.binding(o)
+        link = None
+        for l in const_links:
+            if rscope.same_binding(l[0], b):
+                link = l
+        if link is None:
+            problems.append('introduced name %r has no literal definition in scope' % (o.name,))
+            return problems
+        dv = link[1][1].value
+        if not (type(dv) is type(orig.value) and dv == orig.value):
+            problems.append('literal %r (%s) replaced by an alias of %r (%s)' % (orig.value, type(orig.value).__name__, dv, type(dv).__name__))
+            return problems
+        # forbidden positions
+        p = parent1.get(id(o.node))
+        child = o.node
+        while p is not None:
+            if isinstance(p, ast.pattern) or isinstance(p, ast.match_case) and p.pattern is child:
+                problems.append('literal in a match pattern replaced by a name')
+                return problems
+            if isinstance(p, ast.Expr) and p.value is o.node:
+                problems.append('literal statement / docstring replaced by a name')
+                return problems
+            if isinstance(p, ast.JoinedStr) and child is o.node:
+                problems.append('f-string literal text replaced by a name')
+                return problems
+            if isinstance(p, ast.Assign) and isinstance(parent1.get(id(p)), ast.ClassDef):
+                for t in p.targets:
+                    if isinstance(t, ast.Name) and t.id == '__slots__':
+                        problems.append('__slots__ literal replaced by a name')
+                        return problems
+            child = p
+            p = parent1.get(id(p))
+    # 3. docstrings stay first, __future__ imports stay ahead of all other code
+    for node, first in first_stmts:
+        body = getattr(node, 'body', None)
+        if isinstance(body, list) and body and _is_doc(first):
+            if body[0] is not first:
+                problems.append('docstring is no longer the first statement')
+                return problems
+    seen_code = False
+    for s2 in out.body:
+        if _is_future(s2):
+            if seen_code:
+                problems.append('code precedes a from __future__ import')
+                return problems
+        elif not _is_doc(s2):
+            seen_code = True
+    return problems
+
+
+def hoist_ok(k: int, A: str, B: str, C: str, rl: bool, rg: bool) -> bool:
+    """
+    pre: 0 <= k < len(skeletons.HOIST_TEMPLATES)
+    post: _
+    """
+    tree, an0 = _prepare(skeletons.HOIST_TEMPLATES, k, A, B, C)
+    if an0.errors:
+        return True
+    snap = renamecheck.Snapshot(tree)
+    slots0, _p0 = _slots(tree)
+    first_stmts = [(n, n.body[0]) for n in ast.walk(tree) if isinstance(n, (ast.Module, ast.FunctionDef, ast.AsyncFunctionDef, ast.ClassDef)) and n.body]
+    out = renamecheck.run_pipeline(tree, rl, rg, True)
+    rep = renamecheck.evaluate(an0, snap, out)
+    if rep.problems:
+        return False
+    return hoist_problems(slots0, first_stmts, an0, snap, out, rep) == []
+
+
+def hoist_twin(k: int, A: str, B: str, C: str) -> bool:
+    """
+    pre: 0 <= k < len(skeletons.HOIST_TEMPLATES)
+    post: _
+    """
+    # reachability: a literal does get hoisted (must be refuted)
+    tree, an0 = _prepare(skeletons.HOIST_TEMPLATES, k, A, B, C)
+    if an0.errors:
+        return True
+    snap = renamecheck.Snapshot(tree)
+    out = renamecheck.run_pipeline(tree, True, False, True)
+    for node in ast.walk(out):
+        if isinstance(node, ast.stmt) and not snap.has_node(node):
+            return False
+    return True
+
+
+def public_hoist_ok(k, A, B, C, rl, rg):
+    def chk(text, k, A, B, C):
+        tree, an0, snap, out = None, None, None, None
+        tree = ast.parse(text)
+        deterministic_node_hash(tree)
+        an0 = rscope.analyse(tree)
+        snap = renamecheck.Snapshot(tree)
+        slots0, _p = _slots(tree)
+        first_stmts = [(n, n.body[0]) for n in ast.walk(tree) if isinstance(n, (ast.Module, ast.FunctionDef, ast.AsyncFunctionDef, ast.ClassDef)) and n.body]
+        out = renamecheck.run_pipeline(tree, rl, rg, True, stub_builtins=False)
+        rep = renamecheck.evaluate(an0, snap, out)
+        if rep.problems:
+            return str(rep.problems)
+        p = hoist_problems(slots0, first_stmts, an0, snap, out, rep)
+        if p:
+            import python_minifier
+            from vf.stubs import ALL_OFF
+            return '%s; minify() gives %r' % (p, python_minifier.minify(text, **dict(ALL_OFF, rename_locals=rl, rename_globals=rg, hoist_literals=True)))
+        return ''
+    return _public(skeletons.HOIST_TEMPLATES, chk, k, A, B, C)
+
+
+def insert_kernel(n: int, k0: int, k1: int, k2: int, k3: int, fut: str) -> bool:
+    """
+    pre: 0 <= n <= 4
+    pre: 0 <= k0 <= 4 and 0 <= k1 <= 4 and 0 <= k2 <= 4 and 0 <= k3 <= 4
+    pre: len(fut) <= 10
+    post: _
+    """
+    # rename/util.py:insert on every statement-kind list of length <= 4; the module name of the ImportFrom is symbolic
+    from python_minifier.rename.util import insert
+    kinds = [k0, k1, k2, k3][:n]
+
+    def mk(kd):
+        if kd == 0:
+            return ast.Expr(value=ast.Constant(value='doc'))
+        if kd == 1:
+            return ast.ImportFrom(module=fut, names=[ast.alias(name='x', asname=None)], level=0)
+        if kd == 2:
+            return ast.Expr(value=ast.Constant(value=1))
+        if kd == 3:
+            return ast.Assign(targets=[ast.Name(id='a', ctx=ast.Store())], value=ast.Constant(value=2))
+        return ast.Import(names=[ast.alias(name='m', asname=None)])
+
+    suite = [mk(kd) for kd in kinds]
+    new = ast.Pass()
+    res = list(insert(suite, new))
+    if len(res) != n + 1:
+        return False
+    # expected position: after the longest prefix of docstring expressions and __future__ imports
+    pos = 0
+    while pos < n and (kinds[pos] == 0 or (kinds[pos] == 1 and fut == '__future__')):
+        pos += 1
+    for i in range(n + 1):
+        exp = new if i == pos else suite[i if i < pos else i - 1]
+        if res[i] is not exp:
+            return False
+    return True
+
+
+# ---------------------------------------------------------------------------------------------------------------
+# C11: arguments unchanged, no carry-over between calls, no dependence on set iteration order
+def trees_equal(a, b):
+    if type(a) is not type(b):
+        return False
+    if isinstance(a, ast.AST):
+        for f in a._fields:
+            if not trees_equal(getattr(a, f, None), getattr(b, f, None)):
+                return False
+        return True
+    if isinstance(a, list):
+        if len(a) != len(b):
+            return False
+        for x, y in zip(a, b):
+            if not trees_equal(x, y):
+                return False
+        return True
+    return a == b
+
+
+def history(k1: int, k2: int, A: str, B: str, C: str, P: str, rg: bool) -> bool:
+    """
+    pre: 0 <= k1 < len(skeletons.PRESERVE_TEMPLATES)
+    pre: 0 <= k2 < len(skeletons.TEMPLATES)
+    post: _
+    """
+    import inspect
+    import python_minifier
+    lg = [P]
+    ll = [P]
+    default_opts = inspect.signature(python_minifier.minify).parameters['remove_annotations'].default
+    before_opts = (default_opts.remove_variable_annotations, default_opts.remove_return_annotations,
+                   default_opts.remove_argument_annotations, default_opts.remove_class_attribute_annotations)
+    t1, an1 = _prepare(skeletons.PRESERVE_TEMPLATES, k1, A, B, C)
+    t2, an2 = _prepare(skeletons.TEMPLATES, k2, A, B, C)
+    t3, an3 = _prepare(skeletons.TEMPLATES, k2, A, B, C)
+    if an1.errors or an2.errors:
+        return True
+    renamecheck.run_pipeline(t1, True, rg, True, preserve_locals=ll, preserve_globals=lg, extra={'remove_annotations': default_opts})
+    if not (len(lg) == 1 and lg[0] == P and len(ll) == 1 and ll[0] == P):
+        return False    # the caller's lists were changed by the call
+    out2 = renamecheck.run_pipeline(t2, True, rg, True, preserve_locals=ll, preserve_globals=lg, extra={'remove_annotations': default_opts})
+    if not (len(lg) == 1 and lg[0] == P and len(ll) == 1 and ll[0] == P):
+        return False
+    after_opts = (default_opts.remove_variable_annotations, default_opts.remove_return_annotations,
+                  default_opts.remove_argument_annotations, default_opts.remove_class_attribute_annotations)
+    if before_opts != after_opts:
+        return False
+    out3 = renamecheck.run_pipeline(t3, True, rg, True, preserve_locals=[P], preserve_globals=[P], extra={'remove_annotations': default_opts})
+    return trees_equal(out2, out3)
+
+
+class NondetSet(object):
+    """A set whose iteration order is chosen by the harness (rotation + optional reversal of insertion order)."""
+    tape = [0, False]
+
+    def __init__(self, items=()):
+        self._items = []
+        for x in items:
+            self.add(x)
+
+    def add(self, x):
+        for y in self._items:
+            if y == x:
+                return
+        self._items.append(x)
+
+    def update(self, xs):
+        for x in xs:
+            self.add(x)
+
+    def __contains__(self, x):
+        for y in self._items:
+            if y == x:
+                return True
+        return False
+
+    def __len__(self):
+        return len(self._items)
+
+    def __iter__(self):
+        items = list(self._items)
+        n = len(items)
+        if n > 1:
+            r = NondetSet.tape[0] % n
+            items = items[r:] + items[:r]
+            if NondetSet.tape[1]:
+                items.reverse()
+        return iter(items)
+
+
+def set_order(k: int, A: str, B: str, C: str, rot: int, rev: bool, rg: bool) -> bool:
+    """
+    pre: 0 <= k < len(skeletons.TEMPLATES)
+    pre: 0 <= rot <= 3
+    post: _
+    """
+    # hash-seed dimension as a symbolic variable: every string set of the renamer iterates in a harness-chosen order
+    from vf.stubs import mod, patched
+    import contextlib
+    t1, an1 = _prepare(skeletons.TEMPLATES, k, A, B, C)
+    t2, an2 = _prepare(skeletons.TEMPLATES, k, A, B, C)
+    if an1.errors:
+        return True
+    ref = renamecheck.run_pipeline(t1, True, rg, True)
+    NondetSet.tape = [rot, rev]
+    with contextlib.ExitStack() as st:
+        for m in ('python_minifier.rename.mapper', 'python_minifier.rename.renamer', 'python_minifier.rename.bind_names'):
+            st.enter_context(patched(mod(m), 'set', NondetSet))
+        out = renamecheck.run_pipeline(t2, True, rg, True)
+    return trees_equal(ref, out)
